@@ -22,44 +22,41 @@ BadCells(e, T, I) == {i \in 1..Len(T) :
                         \/ Hex(ReprHash(I[i])) # e.hc2[i]
                         \/ Hex(ReprHash(I[i])) # e.hr[i]
                         \/ LevelOf(T[i].m) # e.cells[i].l}
-JudgeTable(e) ==
-  LET T == FromJson(e.cells) IN
-  IF ~WellFormed(T) THEN PrintT(<<"NOTE", l, "not-well-formed">>)
-  ELSE LET I == InfoTable(T)  bad == BadCells(e, T, I) IN
-       bad = {} \/ (PrintT(<<"NOTE", l, "badcell", CHOOSE i \in bad : \A j \in bad : i <= j>>) /\ FALSE)
+\* (TLC evaluates an operator ARGUMENT once but a LET inside an action at every use: tables, infos and parses are handed down as arguments)
+FirstOf(bad) == CHOOSE i \in bad : \A j \in bad : i <= j
+JudgeTable3(bad) == bad = {} \/ (PrintT(<<"NOTE", l, "badcell", FirstOf(bad)>>) /\ FALSE)
+JudgeTable2(e, T) == IF ~WellFormed(T) THEN PrintT(<<"NOTE", l, "not-well-formed">>)
+                     ELSE JudgeTable3(BadCells(e, T, InfoTable(T)))
+JudgeTable(e) == JudgeTable2(e, FromJson(e.cells))
 
 \* ------------------------------------------------------------------ C01: Ser
 \* {"k":"Ser","cells":..,"roots":[0],"idx":b,"crc":b,"cache":b,"boc":hex,"boc2":hex,"back":{cells,roots},"hash":hex,"backhash":hex}
-SerChecks(e) ==
-  LET T  == FromJson(e.cells)
-      I  == InfoTable(T)
-      want == [k \in 1..Len(e.roots) |-> ReprHash(I[e.roots[k] + 1])]
-      P  == ParseLenient(HexToBytes(e.boc))
-      TB == FromJson(e.back.cells)
-      IB == InfoTable(TB)
-  IN <<  <<"parse",      P.ok>>,
+RootsOf(I, roots) == [k \in 1..Len(roots) |-> ReprHash(I[roots[k] + 1])]
+SerChecks2(e, want, P, backwant) ==
+     <<  <<"parse",      P.ok>>,
          <<"flags",      P.ok => (P.hasIdx = e.idx /\ P.hasCrc = e.crc /\ P.hasCache = e.cache /\ P.magic = "generic")>>,
          <<"identity",   P.ok => RootHashes(P) = want>>,
          <<"dedup",      P.ok => NoDuplicates(P)>>,
          <<"reachable",  P.ok => AllReachable(P)>>,
          <<"canonical",  e.boc = e.boc2 /\ e.boc = e.boc3>>,
-         <<"roundtrip",  [k \in 1..Len(e.back.roots) |-> ReprHash(IB[e.back.roots[k] + 1])] = want>>,
+         <<"roundtrip",  backwant = want>>,
          <<"hash",       e.hash = Hex(want[1]) /\ e.backhash = Hex(want[1])>>,
          \* observation outside the property (NOTE only): is the index table the one boc.tlb prescribes?
          <<"index-note", (P.ok /\ ~Parse(HexToBytes(e.boc)).ok) => PrintT(<<"NOTE", l, "own-index-nonconforming">>)>> >>
-JudgeSer(e) == LET cs == SerChecks(e)
-                   bad == {i \in 1..Len(cs) : ~cs[i][2]}
-               IN bad = {} \/ (PrintT(<<"NOTE", l, "ser", cs[CHOOSE i \in bad : \A j \in bad : i <= j][1]>>) /\ FALSE)
+SerChecks(e) == SerChecks2(e, RootsOf(InfoTable(FromJson(e.cells)), e.roots), ParseLenient(HexToBytes(e.boc)),
+                           RootsOf(InfoTable(FromJson(e.back.cells)), e.back.roots))
+Failing(cs) == {i \in 1..Len(cs) : ~cs[i][2]}
+JudgeChecks2(cs, bad, what) == bad = {} \/ (PrintT(<<"NOTE", l, what, cs[FirstOf(bad)][1]>>) /\ FALSE)
+JudgeChecks(cs, what) == JudgeChecks2(cs, Failing(cs), what)
+JudgeSer(e) == JudgeChecks(SerChecks(e), "ser")
 \* serialisation refused: only legitimate for DAGs deeper than the 1024 limit
-JudgeSerErr(e) == LET T == FromJson(e.cells) IN ReprDepth(InfoTable(T)[e.roots[1] + 1]) > MaxDepth
+JudgeSerErr(e) == ReprDepth(InfoTable(FromJson(e.cells))[e.roots[1] + 1]) > MaxDepth
 
 \* ---------------------------------------------------------------- C07: Parse
 \* {"k":"Parse","boc":hex,"ok":b,"panic":"","cyclic":b,"cells":..,"roots":..,"post":"ok|err|panic:..","alloc_kb":n,"ms":n}
 Sound(T) == Topological(T) /\ \A i \in 1..Len(T) : Len(T[i].b) <= 1023 /\ Len(T[i].r) <= 4
-ParseChecks(e) ==
-  LET B == HexToBytes(e.boc)
-      P == Parse(B)
-  IN << <<"panic", e.panic = "">>,
+ParseChecks2(e, B, P) ==
+     << <<"panic", e.panic = "">>,
         <<"alloc", e.alloc_kb <= (64 * Len(B)) \div 1024 + 2048>>,
         <<"time",  e.ms <= 2000 + Len(B) \div 64>>,
         <<"acyclic", e.ok => ~e.cyclic>>,
@@ -67,22 +64,19 @@ ParseChecks(e) ==
         <<"post",  (e.ok /\ ~e.cyclic) => e.post \in {"ok", "err"}>>,
         \* the text / single-root entry points are the same parser: same verdict, and exactly one root where they promise one
         <<"helpers", /\ e.hpanic = ""
-                     /\ LET n == e.nroots
-                             s == IF n = 1 THEN 1 ELSE -1
-                         IN e.helpers = <<n, n, s, s, s>> >>,
+                     /\ e.helpers = <<e.nroots, e.nroots, IF e.nroots = 1 THEN 1 ELSE -1, IF e.nroots = 1 THEN 1 ELSE -1, IF e.nroots = 1 THEN 1 ELSE -1>> >>,
         \* where the input is a conforming bag, the cells returned are the ones it denotes
         <<"same",  (e.ok /\ ~e.cyclic /\ P.ok /\ e.post = "ok" /\ \A i \in 1..Len(P.T) : HashableCell(P.T[i])) => e.roothashes = [k \in 1..Len(P.roots) |-> Hex(RootHashes(P)[k])]>> >>
-JudgeParse(e) == LET cs == ParseChecks(e)
-                     bad == {i \in 1..Len(cs) : ~cs[i][2]}
-                 IN bad = {} \/ (PrintT(<<"NOTE", l, "parse", cs[CHOOSE i \in bad : \A j \in bad : i <= j][1]>>) /\ FALSE)
+ParseChecks1(e, B) == ParseChecks2(e, B, Parse(B))
+ParseChecks(e) == ParseChecks1(e, HexToBytes(e.boc))
+JudgeParse(e) == JudgeChecks(ParseChecks(e), "parse")
 
 \* ------------------------------------------------------------- C01: Foreign
 \* a conforming bag written by the specification's reference writer (or a real block) must be accepted and
 \* denote the intended cells: {"k":"Foreign","boc":hex,"ok":b,"roothashes":[hex],"trees":[str]?}
-JudgeForeign(e) ==
-  LET P == Parse(HexToBytes(e.boc)) IN
-  P.ok => /\ e.ok
-          /\ e.roothashes = [k \in 1..Len(P.roots) |-> Hex(RootHashes(P)[k])]
+JudgeForeign2(e, P) == P.ok => /\ e.ok
+                                /\ e.roothashes = [k \in 1..Len(P.roots) |-> Hex(RootHashes(P)[k])]
+JudgeForeign(e) == JudgeForeign2(e, Parse(HexToBytes(e.boc)))
 
 Judge(e) == CASE e.k = "Table"   -> JudgeTable(e)
               [] e.k = "Ser"     -> JudgeSer(e)
